@@ -5,8 +5,8 @@ import common
 
 
 def sig_default(line):
-    t = line.split()
-    return "-".join(t[:3]) if len(t) >= 3 else "-".join(t)
+    t = [x for x in line.split()[:4] if len(x) <= 10 and not x.isdigit()]
+    return "-".join(t[:3])
 
 
 class Corr:
